@@ -871,6 +871,55 @@ def run_r8(ctx, rule):
     rule.check(not only_a and not only_b, "parse/section-calls", "ascii and binary Parser::parse call the same section iterators at the same loop depth (only ascii: %s; only binary: %s)" % (only_a[:4], only_b[:4]))
     rule.note("section_calls", len(ca))
 
+# ---- R10 ----------------------------------------------------------------------------------------
+def run_r10(ctx, rule):
+    """Free text (symbol names, comments, constants) is handed out verbatim: what a text token returns is the
+    buffer slice its scan delimited, through identity conversions only, and a terminator that is cut off is
+    exactly the one byte the cursor moves further.  A token that trims or strips what it read returns a name
+    the writer never wrote."""
+    facts = ctx.facts
+    identity = ("core::convert::Into::into", "core::convert::From::from", "core::str::converts::from_utf8_unchecked", "core::ops::index::Index::index", "core::slice::index::index", "bstr::bstr::BStr::new", "core::convert::AsRef::as_ref")
+    n = 0
+    for f in sorted(facts.fns.values(), key=lambda x: x.id):
+        if f.crate not in ("flussab_aiger", "flussab_btor2"):
+            continue
+        sy = sym(f)
+        for bb, t in f.calls():
+            if norm(util.cname(t)) != A.DR + "advance_with_buf":
+                continue
+            n += 1
+            nid = norm(f.id)
+            amount = strip_bb(sy.operand(t["args"][1]))
+            bad = None
+            cut = "nothing"
+            for b2, t2 in f.calls():
+                if b2 == bb:
+                    continue
+                es = [sy.operand(a) for a in t2["args"]]
+                if not any(mentions(e, lambda x: x[0] == "call" and x[1] == bb) for e in es):
+                    continue
+                cn = norm(util.cname(t2))
+                if not (cn in identity or cn.rsplit("::", 1)[-1] in ("index", "into", "from", "from_utf8_unchecked", "as_ref")):
+                    bad = "its result is passed through %s" % short(cn)
+                    break
+                if cn.endswith("::index") and len(es) > 1 and es[0][0] == "call" and es[0][1] == bb:
+                    r = strip_bb(es[1])
+                    if not (r[0] == "agg" and r[1].endswith("RangeTo") and len(r[3]) == 1):
+                        bad = "it is sliced by %s" % sy.show(es[1])
+                        break
+                    end = r[3][0]
+                    if end[0] == "l" and amount == ("bin", "Add", end, ("c", 1)):
+                        cut = "the one terminator byte"
+                    elif end == amount:
+                        cut = "nothing"
+                    elif end[0] == "call" and end[2].endswith("saturating_sub") and end[3][1] == ("c", 1) and amount[0] == "call" and amount[2].endswith("buf_len"):
+                        cut = "the final line feed of the file"
+                    else:
+                        bad = "the slice handed out ends at %s while the cursor moves by %s" % (sy.show(es[1]), sy.show(sy.operand(t["args"][1])))
+                        break
+            rule.check(bad is None, "%s/verbatim" % nid, "%s hands out the consumed text verbatim (cut off: %s)%s" % (short(nid), cut, "" if bad is None else " -- but " + bad), f.loc(bb))
+    rule.note("text_tokens", n)
+
 
 def run(ctx):
     r1 = ctx.rule("C03-R1", "BTOR2 keywords: writer and reader tables are the same bijection and cover every variant", floor=130)
@@ -883,6 +932,8 @@ def run(ctx):
     run_r4(ctx, r4)
     r4b = ctx.rule("C03-R4b", "binary varint: continuation-bit protocol (writer's last group < 0x80, all bits emitted, same shift and masks as the reader)", floor=5)
     run_r4b(ctx, r4b)
+    r10 = ctx.rule("C03-R10", "free text is handed out verbatim: identity conversions only, and only the terminator byte is cut off", floor=5)
+    run_r10(ctx, r10)
     # what the writers emit reaches the sink complete: the Write impl every formatted number and header goes through
     # neither fails nor writes short (C11-R4, run here too)
     from .c11 import run_r4 as c11_r4
